@@ -4,6 +4,7 @@ import (
 	"go/ast"
 	"go/token"
 	"go/types"
+	"strings"
 
 	"lachk/core"
 )
@@ -15,7 +16,7 @@ const (
 
 func init() {
 	register("C04", "other", "T6 WhoMayCall/single producer, T8 DecisionTable (loop shape, normalised), T15 ConstRelation (cap 100), T4 GuardedBy, T21 InjectiveEncoding",
-		"Decides the structure that makes building and processing agree on frames: one function (calcFrameIdx) produces both the frame assigned by Build and the frame compared with the claimed one in checkAndSaveEvent, and its only quorum test is forklessCausedByQuorumOn over the stored roots of that frame; its loop starts at the self-parent's frame, advances by one, continues only while below the bound and forkless-caused by a quorum, the Build bound is the self-parent's frame plus the constant 100, the processing bound is the claimed frame, and a result of 0 becomes 1; a differing claimed frame leads only to ErrWrongFrame and the root is registered only afterwards; and the answer cannot depend on which events were built before: the temporary ID given to a built event is an injective fixed-width function of a strictly increasing counter, or every ID-keyed cache that Build can fill is purged when the unflushed index data is dropped. Equality of ForklessCause with the graph definition is not decided.",
+		"Decides the structure that makes building and processing agree on frames: one function (calcFrameIdx) produces both the frame assigned by Build and the frame compared with the claimed one in checkAndSaveEvent, and its only quorum test is forklessCausedByQuorumOn over the stored roots of that frame; its frame search (decided on the CFG, whatever loop form is used) starts at the self-parent's frame, alternates one quorum test with one step by one, evaluates the test only below the bound and ends only when the bound is reached or the test failed; on every build-mode path the bound read by the search is the self-parent's frame plus the constant 100 and on every check-mode path it is the claimed frame (reaching definitions per mode, so the Build cap cannot clamp processing), and a result of 0 becomes 1; a differing claimed frame leads only to ErrWrongFrame and the root is registered only afterwards; and the answer cannot depend on which events were built before: every built event is indexed under a temporary ID freshly sampled in Build (the SetID of a sample dominates the indexing and the frame computation) and that ID is an injective fixed-width function of a strictly increasing counter, or every ID-keyed cache that Build can fill is purged when the unflushed index data is dropped. Equality of ForklessCause with the graph definition is not decided.",
 		[]string{"math/big FillBytes / encoding/binary fixed-width contracts", "the event source returns the self-parent that was processed"},
 		runC04)
 }
@@ -23,11 +24,52 @@ func init() {
 // checkTmpID is the shared clause (C04.tmpid, used by C05 and C07 as well).
 func checkTmpID(c *core.Ctx) {
 	build := c.Fn(ilT + ".Build")
-	sets := build.CallsMatching(func(cs *core.CallSite) bool { return methodNamed(cs.Name, "SetID") })
-	c.Need(len(sets) == 1, "IndexedLachesis.Build assigns a temporary ID with SetID")
-	gen := isCallTo(build, sets[0].Call.Args[0], "abft.uniqueID.sample")
-	c.Need(gen != nil, "the temporary ID comes from uniqueID.sample()")
+	// sites (in Build, or in a helper that always does it) where the event gets a fresh sample as its ID
+	isFresh := func(cs *core.CallSite) bool {
+		return methodNamed(cs.Name, "SetID") && len(cs.Call.Args) == 1 && isCallTo(cs.F, cs.Call.Args[0], "abft.uniqueID.sample") != nil
+	}
+	fresh := build.SitesMust(isFresh, 2)
+	c.Need(len(fresh) >= 1, "IndexedLachesis.Build assigns a temporary ID from uniqueID.sample() with SetID")
 	smp := c.Fn("abft.uniqueID.sample")
+	purgedOnDrop := false
+	if dn := c.P.Func("vecfc.Index.onDropNotFlushed"); dn != nil {
+		for _, cs := range dn.CallsTo("utils/simplewlru.Cache.Purge") {
+			if fieldNameOf(dn, cs.Recv()) == "vecfc.Index.cache.ForklessCause" {
+				purgedOnDrop = true
+			}
+		}
+	}
+	// every built event is indexed under such a fresh ID: the assignment dominates the indexing, and Build
+	// gives the event no other ID. An event indexed under an ID it already carried (e.g. the temporary ID
+	// of an earlier, abandoned Build of the same object) meets the pair-cache entries of that earlier build.
+	{
+		adds := build.CallsMatching(func(cs *core.CallSite) bool {
+			return methodNamed(cs.Name, "Add") && strings.HasPrefix(cs.Name, "abft.DagIndexer.")
+		})
+		inner := build.CallsTo("abft.Lachesis.Build", "abft.Orderer.Build")
+		ok, pos, why := true, build.Pos(), ""
+		if len(adds)+len(inner) == 0 {
+			ok, why = false, "Build neither indexes the event nor computes its frame"
+		}
+		for _, cs := range append(adds, inner...) {
+			if d, wit := build.MustPassBefore(fresh, cs.Pt); !d && ok {
+				ok, pos, why = false, cs.Pos(), "the event can be indexed (and its frame computed) under the ID it carried before instead of a fresh temporary one ("+build.DescribePath(wit)+")"
+			}
+		}
+		for _, cs := range build.CallsMatching(func(cs *core.CallSite) bool { return methodNamed(cs.Name, "SetID") }) {
+			if !isFresh(cs) && ok {
+				ok, pos, why = false, cs.Pos(), "Build also gives the event an ID that is not a fresh sample"
+			}
+		}
+		switch {
+		case ok:
+			c.Pass("every built event is indexed under a fresh temporary ID", "T2 Dominates", "SetID(uniqueID.sample()) lies on every path to dagIndexer.Add and to the frame computation; Build sets no other ID")
+		case purgedOnDrop:
+			c.Pass("every built event is indexed under a fresh temporary ID", "T2 Dominates (alternative: purge)", "the forkless-cause pair cache is purged with the dropped index data, so a repeated ID cannot hit a stale entry")
+		default:
+			c.Fail("every built event is indexed under a fresh temporary ID", "T2 Dominates", pos, why+"; the forkless-cause pair cache is keyed by event IDs and survives DropNotFlushed, so a second Build under the same ID answers from the entries of the first one and assigns a different frame than a clean instance (which Process may then reject)")
+		}
+	}
 	ctrF := "abft.uniqueID.counter"
 	// (a) counter strictly increases: counter.Add(counter, <const 1>) / ++ on every path
 	incOK := false
@@ -76,14 +118,7 @@ func checkTmpID(c *core.Ctx) {
 		}
 	}
 	// (c) alternative: every ID-keyed cache Build can fill is purged on drop
-	purged := false
-	if dn := c.P.Func("vecfc.Index.onDropNotFlushed"); dn != nil {
-		for _, cs := range dn.CallsTo("utils/simplewlru.Cache.Purge") {
-			if fieldNameOf(dn, cs.Recv()) == "vecfc.Index.cache.ForklessCause" {
-				purged = true
-			}
-		}
-	}
+	purged := purgedOnDrop
 	switch {
 	case verdict == "ok" && incOK:
 		c.Pass("temporary IDs never repeat", "T21 InjectiveEncoding", why+"; the counter increases on every call")
@@ -196,137 +231,7 @@ func runC04(c *core.Ctx) {
 		c.Check(okRet, "quorum test returns HasQuorum()", "provenance", fq.Pos(), "the result is the weight counter's HasQuorum()", "the result is not the counter's quorum test")
 	})
 
-	c.Clause("C04.loop", func() {
-		f := c.Fn(ordT + ".calcFrameIdx")
-		e, checkOnly := f.Param(0), f.Param(1)
-		var loop *ast.ForStmt
-		f.InspectOwn(func(n ast.Node) bool {
-			if fs, ok := n.(*ast.ForStmt); ok && loop == nil {
-				loop = fs
-			}
-			return true
-		})
-		c.Need(loop != nil && loop.Cond != nil && loop.Post != nil, "calcFrameIdx has a counted for loop with a condition")
-		// self-parent frame variable: result 0
-		var spf *types.Var
-		if f.Type.Results != nil && len(f.Type.Results.List) > 0 && len(f.Type.Results.List[0].Names) > 0 {
-			spf, _ = f.Info().Defs[f.Type.Results.List[0].Names[0]].(*types.Var)
-		}
-		c.Need(spf != nil, "named result selfParentFrame")
-		// selfParentFrame = GetEvent(*e.SelfParent()).Frame() on the self-parent != nil edge, 0 otherwise
-		okSP := false
-		for _, a := range assignsToVar(f, spf) {
-			if call, ok := ast.Unparen(a.RHS).(*ast.CallExpr); ok && a.RHS != nil && methodNamed(calleeName(f, call), "Frame") {
-				if mentionsCall(f, call, "abft.EventSource.GetEvent") {
-					g, _ := f.GuardedBy(a.Pt, func(ft core.Fact) bool {
-						cm, k := core.NormCmp(ft)
-						if !k || cm.R == nil || cm.Op != token.NEQ || !core.IsNil(f.Info(), cm.R) {
-							return false
-						}
-						cl, isC := ast.Unparen(cm.L).(*ast.CallExpr)
-						return isC && methodNamed(calleeName(f, cl), "SelfParent")
-					})
-					okSP = g
-				}
-			}
-		}
-		c.Check(okSP, "self-parent frame is the stored self-parent's frame", "provenance", f.Pos(), "selfParentFrame = GetEvent(*e.SelfParent()).Frame() when a self-parent exists, else 0", "the starting frame is not the self-parent's frame")
-		// init: f = selfParentFrame
-		var fvar *types.Var
-		okPost := false
-		if inc, ok := loop.Post.(*ast.IncDecStmt); ok && inc.Tok == token.INC {
-			fvar = varOf(f, inc.X)
-			okPost = fvar != nil
-		}
-		// start value: every definition of the loop variable that is made before the loop is entered
-		// (the loop's init clause or statements preceding the loop) must be the self-parent's frame
-		okInit := false
-		if fvar != nil {
-			nDefs, nGood := 0, 0
-			for _, a := range assignsToVar(f, fvar) {
-				if a.Stmt.Pos() >= loop.Body.Pos() || a.Tok == token.INC {
-					continue // inside / after the loop
-				}
-				if a.Stmt.Pos() > loop.End() {
-					continue
-				}
-				if a.RHS == nil {
-					if _, isSpec := a.Stmt.(*ast.ValueSpec); isSpec {
-						continue // `var f idx.Frame`: zero value, overwritten by the init clause
-					}
-				}
-				nDefs++
-				if a.RHS != nil && varOf(f, a.RHS) == spf {
-					nGood++
-				}
-			}
-			okInit = nDefs >= 1 && nDefs == nGood
-		}
-		c.Check(okInit && okPost, "loop starts at the self-parent's frame and steps by one", "loop shape", loop.Pos(), "for f = selfParentFrame; ...; f++", "the frame loop does not start at the self-parent's frame or does not step by one")
-		// cond: f < bound && forklessCausedByQuorumOn(e, f)
-		var bound *types.Var
-		okCond := false
-		facts := core.Decompose(loop.Cond, true)
-		hasLT, hasQ := false, false
-		for _, ft := range facts {
-			if cm, k := core.NormCmp(ft); k && cm.R != nil && cm.Op == token.LSS && varOf(f, cm.L) == fvar {
-				bound = varOf(f, cm.R)
-				hasLT = bound != nil
-			}
-			if call := isCallTo(f, ft.Expr, ordT+".forklessCausedByQuorumOn"); call != nil && ft.Truth && len(call.Args) == 2 && varOf(f, call.Args[0]) == e && varOf(f, call.Args[1]) == fvar {
-				hasQ = true
-			}
-		}
-		okCond = hasLT && hasQ && len(facts) == 2
-		c.Check(okCond, "loop continues only while below the bound and forkless-caused by a quorum at f", "T8 DecisionTable", loop.Cond.Pos(), "f < bound && forklessCausedByQuorumOn(e, f)", "the continuation condition is not 'f < bound && forklessCausedByQuorumOn(e, f)'")
-		// bound: selfParentFrame + 100 in build mode, e.Frame() in check mode
-		okBuild, okCheck := false, false
-		if bound != nil {
-			for _, a := range assignsToVar(f, bound) {
-				if a.RHS == nil {
-					continue
-				}
-				l := core.Linearize(f.Info(), a.RHS, func(x ast.Expr) string {
-					if varOf(f, x) == spf {
-						return "spf"
-					}
-					return ""
-				})
-				if len(l.Coef) == 1 && coefIs(l, "spf", 1) && l.C.IsInt64() && l.C.Int64() == 100 {
-					// not under the checkOnly edge
-					g, _ := f.GuardedBy(a.Pt, func(ft core.Fact) bool { return ft.Truth && varOf(f, ft.Expr) == checkOnly })
-					okBuild = !g
-				}
-				if call, ok := ast.Unparen(a.RHS).(*ast.CallExpr); ok && methodNamed(calleeName(f, call), "Frame") {
-					if sel, k := call.Fun.(*ast.SelectorExpr); k && varOf(f, sel.X) == e {
-						g, _ := f.GuardedBy(a.Pt, func(ft core.Fact) bool { return ft.Truth && varOf(f, ft.Expr) == checkOnly })
-						okCheck = g
-					}
-				}
-			}
-		}
-		c.Check(okBuild, "build bound is the self-parent's frame + 100", "T15 ConstRelation", f.Pos(), "maxFrameToCheck = selfParentFrame + 100", "the build-mode bound is not selfParentFrame + 100")
-		c.Check(okCheck, "processing bound is the claimed frame", "T8 DecisionTable", f.Pos(), "in check mode the bound is e.Frame()", "the check-mode bound is not the claimed frame")
-		// 0 -> 1 and the returned frame is f
-		okZero := false
-		for _, a := range assignsToVar(f, fvar) {
-			if a.RHS != nil && core.IsConstInt(f.Info(), a.RHS, 1) {
-				g, _ := f.GuardedBy(a.Pt, func(ft core.Fact) bool {
-					cm, k := core.NormCmp(ft)
-					return k && cm.R != nil && cm.Op == token.EQL && varOf(f, cm.L) == fvar && core.IsConstInt(f.Info(), cm.R, 0)
-				})
-				okZero = g
-			}
-		}
-		okRet := false
-		for _, rp := range f.ReturnPoints() {
-			r := rp.Node().(*ast.ReturnStmt)
-			if len(r.Results) == 2 && varOf(f, r.Results[0]) == spf && varOf(f, r.Results[1]) == fvar {
-				okRet = true
-			}
-		}
-		c.Check(okZero && okRet, "result 0 becomes 1 and the loop variable is returned", "T8 DecisionTable", f.Pos(), "if f == 0 { f = 1 }; return selfParentFrame, f", "the frame of an event without self-parent is not 1, or the loop result is not what is returned")
-	})
+	c.Clause("C04.loop", func() { c04Loop(c) })
 
 	c.Clause("C04.tmpid", func() { checkTmpID(c) })
 }
